@@ -1,4 +1,5 @@
 import OutrankModel.Model.MI
+import OutrankModel.Lemmas.Sampling
 /-!
 # C04 – subsampled estimation is memory-safe, deterministic, sample-only
 Core Lean. `garb` is whatever earlier allocations left in freed memory: universally quantified.
@@ -10,38 +11,49 @@ variable {α : Type}
 out-of-range read, and what it returns does not depend on that content: it is exactly the stated sample. -/
 theorem subsample_safe (garb : Nat → Int) (Y X : List Nat) (rnum rden : Nat) (h : Y.length = X.length) :
     subsampleM garb Y X rnum rden = .ok (sampleSpec Y X rnum rden) := by
-  sorry
+  exact subsampleM_ok garb Y X rnum rden h
 
 /-- C04-2: the sample consists of valid, pairwise different row numbers: per target value (ascending) its first
 `quota` rows, or all rows when the quota is 0 (this is the definition of `sampledRows`). -/
 theorem sampledRows_valid (X : List Nat) (rnum rden : Nat) :
     (∀ i ∈ sampledRows X rnum rden, i < X.length) ∧ (sampledRows X rnum rden).Nodup := by
-  sorry
+  rw [sampledRows_eq]
+  split
+  · exact ⟨fun i hi => List.mem_range.1 hi, List.nodup_range⟩
+  · exact ⟨fun i hi => mem_strata_lt hi, strata_nodup X _⟩
 
 /-- every sampled row of a target value is among that value's first `quota` positions -/
 theorem sampledRows_quota (X : List Nat) (rnum rden : Nat) (x : Nat)
     (hq : quota X.length (vals X).length rnum rden ≠ 0) :
     (sampledRows X rnum rden).filter (fun i => X[i]? == some x)
       = (positions X x).take (quota X.length (vals X).length rnum rden) := by
-  sorry
+  rw [sampledRows_eq, if_neg hq]
+  exact strata_filter X _ x
 
 /-- C04-4a: the call terminates normally for every input (any arithmetic instance). -/
 theorem estimator_ok (o : Ops α) (Y X : List Nat) (rnum rden : Nat) (cc : Bool) (h : Y.length = X.length) :
     ∃ v, estimator o Y X rnum rden cc = .ok v := by
-  sorry
+  unfold estimator
+  split
+  · rw [subsampleM_ok _ Y X rnum rden h]; exact ⟨_, rfl⟩
+  · exact ⟨_, rfl⟩
 
 /-- C04-3: the score does not change when feature values outside the sampled rows are altered. -/
 theorem score_sample_only (o : Ops α) (Y Y' X : List Nat) (rnum rden : Nat) (cc : Bool)
     (h : Y.length = X.length) (h' : Y'.length = X.length) (hr : rnum < rden)
     (hagree : ∀ i ∈ sampledRows X rnum rden, Y[i]? = Y'[i]?) :
     estimator o Y X rnum rden cc = estimator o Y' X rnum rden cc := by
-  sorry
+  unfold estimator
+  rw [if_pos hr, if_pos hr, subsampleM_ok _ Y X rnum rden h, subsampleM_ok _ Y' X rnum rden h',
+    sampleSpec_congr Y Y' X rnum rden hagree]
 
 /-- C04-5: the code before the repair reads uninitialised memory (kept so a reintroduction is explained). -/
 theorem old_buffer_unsafe :
     ∃ (garb : Nat → Int) (Y X : List Nat) (rnum rden i : Nat), Y.length = X.length ∧ rnum < rden ∧
       oldSubsampleM garb Y X rnum rden = .error (.uninitRead i) := by
-  sorry
+  refine ⟨fun _ => 0, [0, 0, 0, 1], [0, 0, 0, 1], 3, 4, 2, rfl, by decide, ?_⟩
+  simp [oldSubsampleM, indexBuffer, vals_example, quota, positions, gather, List.zipIdx, List.range,
+    List.range.loop, bind, Except.bind]
 
 example : ([0, 0, 0, 1] : List Nat).length = ([5, 6, 7, 8] : List Nat).length ∧ 3 < 4 := by decide
 
